@@ -8,7 +8,7 @@
 //! line alone (op arguments for builds; `rfcdec`'s reading of the datagram for parses, restricted to
 //! datagrams a conforming RFC sender may emit), so a single replayed op line re-fires it.
 //! Oracle classes: `C04:panic-<file>:<line>` (panic on untrusted input), everything else `C06:...`.
-mod gen;
+mod generator;
 mod rfcdec;
 
 use flute::core::alc::{get_sender_current_time, parse_alc_pkt, parse_payload_id};
@@ -294,6 +294,12 @@ fn flute_parse(data: &[u8], pid_oti: PidOti) -> Sub<ParseObs> {
     Sub::of(r)
 }
 
+fn flute_get_ext(d: &[u8], het: u8) -> Sub<Option<Vec<u8>>> {
+    Sub::of(guarded(AssertUnwindSafe(|| {
+        hk::parse_lct_header(d).and_then(|l| get_ext(d, &l, het).map(|r| r.map(|x| x.to_vec())))
+    })))
+}
+
 fn flute_plct(data: &[u8]) -> Sub<LctObs> {
     Sub::of(guarded(AssertUnwindSafe(|| hk::parse_lct_header(data).map(|l| LctObs::of(&l)))))
 }
@@ -400,12 +406,22 @@ fn check_spec_parse(d: &[u8], obs: &Sub<ParseObs>, o: &mut Oracle) {
     let po = match obs {
         Sub::Ok(po) => po,
         _ => {
-            // which stage refuses the RFC-valid datagram: the LCT header parser or the extension processing
+            // which stage refuses the RFC-valid datagram: the LCT header parser, the extension walk, or
+            // (header and walk agreeing with the RFC reading) the scheme's EXT_FTI decoder
+            let walk_ok = [rd::HET_FTI, rd::HET_CENC, rd::HET_FDT, rd::HET_TIME]
+                .iter()
+                .all(|het| flute_get_ext(d, *het) == Sub::Ok(rd::find_ext(&f.exts, *het).map(|e| e.encode())));
             let stage = match flute_plct(d) {
-                Sub::Ok(l) if l == want_lct => "spec-parse-ext",
-                _ => "spec-parse-lct",
+                Sub::Ok(l) if l == want_lct => {
+                    if walk_ok {
+                        format!("spec-parse-fti-{}", fec)
+                    } else {
+                        "spec-parse-ext".to_string()
+                    }
+                }
+                _ => "spec-parse-lct".to_string(),
             };
-            o.fail(&cls(stage, h), &format!("RFC-valid datagram refused by parse_alc_pkt; independent decoder reads {}", rd::show_decode(d)));
+            o.fail(&cls(&stage, h), &format!("RFC-valid datagram refused by parse_alc_pkt; independent decoder reads {}", rd::show_decode(d)));
             return;
         }
     };
@@ -865,9 +881,7 @@ impl WireEngine {
         }
         let d = rd::unhex(t[0])?;
         let het = nat_lt(t[1], 8)? as u8;
-        let obs: Sub<Option<Vec<u8>>> = Sub::of(guarded(AssertUnwindSafe(|| {
-            hk::parse_lct_header(&d).and_then(|l| get_ext(&d, &l, het).map(|r| r.map(|x| x.to_vec())))
-        })));
+        let obs = flute_get_ext(&d, het);
         if let Some(l) = obs.panic_loc() {
             o.fail(&panic_cls(l), &format!("parse_lct_header + get_ext panics at {}", l));
         }
@@ -979,5 +993,5 @@ fn main() {
         eprintln!("rfcdec self test failed: {}", e);
         std::process::exit(3);
     }
-    harness_core::engine_main("wire", || Box::new(WireEngine), gen::run);
+    harness_core::engine_main("wire", || Box::new(WireEngine), generator::run);
 }
